@@ -310,7 +310,7 @@ pub fn run(ctx: &mut Ctx) {
         }
     }
     ctx.stratum("R-random-token-soups", false);
-    let n = ctx.tier.pick(100_000u64, 10_000_000u64);
+    let n = ctx.tier.n(100_000, 10_000_000);
     for i in 0..n {
         if ctx.take() {
             let mut r = Rng::for_case(ctx.seed, "C17-R", i);
